@@ -168,6 +168,20 @@ namespace c01
         if (!same)
             expect_seq(clause, how, list, seq_of(ids, n), model, reversed);
     }
+    // state coverage: exact configuration (list contents + node states) for small worlds; for random worlds with more
+    // than 4 nodes only the shape (list lengths, number of nodes per state), so the count stays meaningful and bounded
+    inline uint64_t shape_hash(uint64_t salt, int N, int L, const std::list<int> *model, int nlists, const uint8_t *st)
+    {
+        uint64_t h = vf::mix(salt, (uint64_t)N * 16 + L);
+        for (int l = 0; l < nlists; l++)
+            h = vf::mix(h, 1000 + model[l].size());
+        int cnt[8] = {0};
+        for (int x = 0; x < N; x++)
+            cnt[st[x] & 7]++;
+        for (int k = 0; k < 8; k++)
+            h = vf::mix(h, (uint64_t)cnt[k]);
+        return h;
+    }
     inline void list_insert(std::list<int> &m, int target, bool after, int x)
     {
         auto it = std::find(m.begin(), m.end(), target);
